@@ -2,15 +2,15 @@
 //! The ring is built inside every case; `ctor` = n (ConstDivisor::new) | w (from_word) | d (from_dword).
 use dashu_int::fast_div::ConstDivisor;
 use dashu_int::modular::Reduced;
-use dashu_int::{IBig, UBig};
+use dashu_int::{DoubleWord, IBig, UBig, Word};
 use hlib::*;
 use num_modular::Reducer;
 
 fn ring(ctor: &str, m: &str) -> ConstDivisor {
     let m = ubig(m);
     match ctor {
-        "w" => ConstDivisor::from_word(u64::try_from(&m).expect("from_word needs a one-word modulus")),
-        "d" => ConstDivisor::from_dword(u128::try_from(&m).expect("from_dword needs a two-word modulus")),
+        "w" => ConstDivisor::from_word(Word::try_from(&m).expect("from_word needs a one-word modulus")),
+        "d" => ConstDivisor::from_dword(DoubleWord::try_from(&m).expect("from_dword needs a two-word modulus")),
         _ => ConstDivisor::new(m),
     }
 }
@@ -82,7 +82,18 @@ fn rout(r: &ConstDivisor, t: UBig) -> String {
     format!("{} {} {}", hu(&Reducer::<UBig>::residue(r, t)), chk as u8, raw)
 }
 
+/// round 5: every `ok` answer carries the word size of the build (`wb=64`, `wb=32` under force_bits="32"); the oracle
+/// evaluates the as-is models at that word size
 fn run(op: &str, a: &[&str]) -> String {
+    let s = run0(op, a);
+    if s.starts_with("ok") {
+        format!("{} wb={}", s, Word::BITS)
+    } else {
+        s
+    }
+}
+
+fn run0(op: &str, a: &[&str]) -> String {
     match op {
         // reduce <kind> <ctor> <m> <a>   kind = u | i | primitive type
         "reduce" => {
